@@ -215,7 +215,7 @@ class BitsStream(runner.Stream):
     # ------------------------------------------------------------------ oracle (implementation only)
     def oracle(self, req, ans):
         t = req.split(" ")
-        if ans in ("panic", "abort") or ans.endswith(" panic"):
+        if ans in ("panic", "abort", "hang") or ans.endswith(" panic"):
             if t[1] == "buf" and any(o.startswith("patch:") for o in t[2:]):
                 # patching at/after the written bits is outside the property (debug assertion)
                 nb = NaiveBuf()
